@@ -17,6 +17,14 @@ pub const SHARDS: u64 = 16;
 
 /// `--strict`: run the search with all known-finding exemptions disabled (used to (re)derive minimal replays)
 pub static STRICT: std::sync::atomic::AtomicBool = std::sync::atomic::AtomicBool::new(false);
+/// `--strict-class X`: disable only the exemption of known-finding class X (to derive a minimal replay of X)
+pub static STRICT_CLASS: std::sync::RwLock<Option<String>> = std::sync::RwLock::new(None);
+pub fn class_enabled(name: &str) -> bool {
+    match STRICT_CLASS.read().unwrap().as_deref() {
+        Some(x) => x != name,
+        None => true,
+    }
+}
 pub fn strict_mode() -> bool {
     STRICT.load(std::sync::atomic::Ordering::Relaxed)
 }
@@ -39,6 +47,8 @@ impl Fail {
 pub struct Stats {
     pub cases: u64,
     pub nontrivial: HashSet<u64>,
+    /// non-trivial cases that are distinct by construction (exhaustive enumeration): counted, not hashed
+    pub nontrivial_enumerated: u64,
     pub classes: BTreeMap<String, u64>,
     pub observations: u64,
     pub exempted: BTreeMap<String, u64>,
@@ -64,6 +74,7 @@ impl Stats {
     pub fn absorb(&mut self, o: Stats) {
         self.cases += o.cases;
         self.nontrivial.extend(o.nontrivial);
+        self.nontrivial_enumerated += o.nontrivial_enumerated;
         for (k, v) in o.classes {
             *self.classes.entry(k).or_insert(0) += v;
         }
@@ -451,7 +462,7 @@ pub fn run_property(p: &Property, tier: &str, seed: u64, verif_dir: &str, only_j
         per_job.push(json!({
             "job": r.label,
             "cases": r.stats.cases,
-            "distinct_nontrivial": r.stats.nontrivial.len(),
+            "distinct_nontrivial": r.stats.nontrivial.len() as u64 + r.stats.nontrivial_enumerated,
             "observations": r.stats.observations,
             "classes": r.stats.classes,
             "exempted": r.stats.exempted,
@@ -500,7 +511,7 @@ pub fn run_property(p: &Property, tier: &str, seed: u64, verif_dir: &str, only_j
         "level": "exploration",
         "coverage": {
             "evaluations": total.cases,
-            "distinct_nontrivial": total.nontrivial.len(),
+            "distinct_nontrivial": total.nontrivial.len() as u64 + total.nontrivial_enumerated,
             "rule": p.rule,
             "samples": total.samples,
             "observations": total.observations,
@@ -526,7 +537,7 @@ pub fn run_property(p: &Property, tier: &str, seed: u64, verif_dir: &str, only_j
         tier,
         seed,
         total.cases,
-        total.nontrivial.len(),
+        total.nontrivial.len() as u64 + total.nontrivial_enumerated,
         total.observations,
         violations.len(),
         t0.elapsed().as_secs_f64()
